@@ -172,12 +172,16 @@ def run(cx):
             if not sends:
                 inst.violation(he.path, "resend in " + arm, "no resend in the %s arm of handle_event (anchor)" % arm)
             cx.guard(inst, he, sends, [[r"ne\(0,arg2\.count\)"]], construct="server resend in " + arm, why="a retry is sent only while retries remain")
+            kind_rx = r"eq\((EventType::%s\{\},arg2\.kind|arg2\.kind,EventType::%s\{\})\)" % (kind, kind)
+            cx.guard(inst, he, sends, [[kind_rx]], construct="server resend in %s for a foreign timer" % arm,
+                     why="only this state's own timer may consume its retry budget (a stale timer of an earlier state would shorten it)")
             tos = []
             for loc, lab in event_pushes(he, r"Error\{.*Timeout"):
                 good, _ = dnf_holds(fah.at(loc), [[r"is\(.*\.state,%s\)" % arm]])
                 if good:
                     tos.append((loc, "server Error(Timeout) in " + arm))
             cx.guard(inst, he, tos, [[r"eq\(0,arg2\.count\)"]], construct="server Error(Timeout) in " + arm, why="give up only after all retries")
+            cx.guard(inst, he, tos, [[r"eq\((EventType::%s\{\},arg2\.kind|arg2\.kind,EventType::%s\{\})\)" % (kind, kind)]], construct="server Error(Timeout) in %s for a foreign timer" % arm)
             tms = [l for l, node, ps in he.field_writes(r"arg2\.time") if re.fullmatch(rx_comm("add", "arg3", re.escape(const)), show(he.rvalue_expr(node["rv"])))]
             for loc, lab in sends:
                 good, _ = dnf_holds(fah.at(loc), [[r"eq\(arg2\.kind,.*%s.*\)|EventType::eq\(arg2\.kind,.*%s.*\)|.*%s.*" % (kind, kind, kind)]])
@@ -244,6 +248,19 @@ def run(cx):
                         inst.violation(b.path, "keepalive option", "keepalive_interval_ms is not `if keepalive {Some(interval)} else {None}`", at=b.span_at(loc))
             if not found:
                 inst.violation(b.path, "half_connection::Config", "Config literal not found (anchor)")
+
+
+
+
+_run_core = run
+
+
+def run(cx):
+    _run_core(cx)
+    # a keepalive is a sync frame without ids; the idle peer's deadline is refreshed only by the ack it
+    # gets in reply, so "never times out while idle with keepalive" needs the sync-reply mechanism
+    from props.C11 import sync_reply_mechanism
+    sync_reply_mechanism(cx, "C10.f", "C10.g")
 
 
 SELFTEST = [
